@@ -5,3 +5,5 @@ package evaluator
 func verifMap(string, *mapVal, string) {}
 
 func verifEv(string, string) {}
+
+func verifVar(string, string, value) {}
